@@ -137,10 +137,26 @@ class VLoop(asyncio.SelectorEventLoop):
         self.set_task_factory(self._factory)
         self.on_res = None
         self.on_endpoint = None
+        import random as _r
+        # per-iteration time jitter (seeded) for the non-stable rank policies: explores where a timer
+        # lands inside a chain of immediately-ready callbacks
+        self.iter_jitter = _r.Random(f"iter:{rng}") if rank in ("perm", "seeded") else None
 
     # ---- time --------------------------------------------------------------
     def time(self):
         return self._vtime
+
+    ITER_EPS = 3e-8
+
+    def _run_once(self):
+        # a real loop spends time in every iteration, so a timer that is due a fraction later can
+        # fire in the middle of a chain of immediately-ready callbacks; without this the virtual
+        # clock would only move when the ready queue is empty and such interleavings never happen
+        if self.iter_jitter is not None:
+            self._vtime += 1e-8 + self.iter_jitter.random() * 9e-8
+        else:
+            self._vtime += self.ITER_EPS
+        super()._run_once()
 
     def call_at(self, when, callback, *args, context=None):
         self._seq += 1
